@@ -62,11 +62,58 @@ func runLifetime(cs Case) (status, detail, class string, obs any) {
 // runRenewRun: real renewals driven by the library's own timer with a short lifetime, while
 // client requests and (delayed) server responses are in flight all the time.
 func runRenewRun(cs Case) (status, detail, class string, obs any) {
-	p, c, err := openPair(cs, chanpair.Opts{Policy: cs.Policy, Mode: cs.SecMod, Lifetime: uint32(cs.LifetimeMs), RequestTimeout: 5 * time.Second})
+	// Every renewal's OPN request -- and whatever the client sends after it -- is delayed by renewDelay
+	// on its way to the server (FIFO kept), so that the renewal lasts long enough for requests to be
+	// issued while it is in flight (they wait at the request gate and must complete normally).
+	const renewDelay = 150 * time.Millisecond
+	var tmu sync.Mutex
+	var pp *chanpair.Pair
+	var heldQ [][]byte
+	holding := false
+	nOPN := 0
+	var renewWindows int64
+	tap := func(f chanpair.Frame) [][]byte {
+		if f.Dir != "c2s" {
+			return chanpair.Pass(f)
+		}
+		tmu.Lock()
+		defer tmu.Unlock()
+		if holding {
+			heldQ = append(heldQ, append([]byte(nil), f.Data...))
+			return nil
+		}
+		if f.Type() == "OPN" {
+			nOPN++
+			if nOPN > 1 {
+				holding = true
+				atomic.AddInt64(&renewWindows, 1)
+				heldQ = append(heldQ, append([]byte(nil), f.Data...))
+				go func() {
+					time.Sleep(renewDelay)
+					tmu.Lock()
+					defer tmu.Unlock()
+					for _, b := range heldQ {
+						if pp != nil {
+							pp.Inject("c2s", b)
+						}
+					}
+					heldQ, holding = nil, false
+				}()
+				return nil
+			}
+		}
+		return chanpair.Pass(f)
+	}
+	p, c, err := openPair(cs, chanpair.Opts{Policy: cs.Policy, Mode: cs.SecMod, Lifetime: uint32(cs.LifetimeMs), RequestTimeout: 5 * time.Second, Tap: tap})
 	if err != nil {
 		return "inconclusive", "open: " + err.Error(), "", nil
 	}
+	tmu.Lock()
+	pp = p
+	tmu.Unlock()
 	defer closePair(p, c)
+	lifetime := time.Duration(cs.LifetimeMs) * time.Millisecond
+	const longPollBase = 9000000
 	ctx, cancel := context.WithTimeout(context.Background(), time.Duration(cs.DurationMs)*time.Millisecond)
 	defer cancel()
 	rnd := vfgo.Rand(int64(cs.N))
@@ -91,17 +138,20 @@ func runRenewRun(cs Case) (status, detail, class string, obs any) {
 				continue
 			}
 			swg.Add(1)
-			go func(id, h uint32) {
+			go func(id, h uint32, r *ua.ReadRequest) {
 				defer swg.Done()
 				rmu.Lock()
 				d := delays[int(id)%len(delays)]
 				rmu.Unlock()
+				if len(r.NodesToRead) > 0 && r.NodesToRead[0].NodeID.IntID() >= longPollBase {
+					d = lifetime * 3 / 2 // a long poll (parked Publish): outstanding across at least one renewal
+				}
 				time.Sleep(d) // a response that crosses the renewal (publish-like)
 				sctx, c2 := context.WithTimeout(bg, 5*time.Second)
 				defer c2()
 				p.Server.SendResponseWithContext(sctx, id, &ua.ReadResponse{ResponseHeader: chanpair.RespHeader(h, ua.StatusOK),
 					Results: []*ua.DataValue{{EncodingMask: ua.DataValueValue, Value: ua.MustVariant(int32(1))}}, DiagnosticInfos: []*ua.DiagnosticInfo{}})
-			}(m.RequestID, r.RequestHeader.RequestHandle)
+			}(m.RequestID, r.RequestHeader.RequestHandle, r)
 		}
 	}()
 	type fail struct {
@@ -137,6 +187,25 @@ func runRenewRun(cs Case) (status, detail, class string, obs any) {
 			}
 		}(s)
 	}
+	// the long poll: one request at a time that the server answers only after 1.5 lifetimes
+	var longOK, longFail int64
+	wg.Add(1)
+	go func() {
+		defer wg.Done()
+		for i := 0; ctx.Err() == nil; i++ {
+			err := p.Client.SendRequestWithTimeout(context.Background(), chanpair.ReadReq(0, uint32(longPollBase+i)), nil, 3*lifetime+3*time.Second, func(ua.Response) error { return nil })
+			if err != nil {
+				atomic.AddInt64(&longFail, 1)
+				fmu.Lock()
+				if len(fails) < 20 {
+					fails = append(fails, fail{time.Since(t0).Milliseconds(), "long poll: " + err.Error()})
+				}
+				fmu.Unlock()
+				return
+			}
+			atomic.AddInt64(&longOK, 1)
+		}
+	}()
 	wg.Wait()
 	var chanErrs []string
 	for {
@@ -157,5 +226,5 @@ func runRenewRun(cs Case) (status, detail, class string, obs any) {
 	c.mu.Unlock()
 	class = fmt.Sprintf("renewrun/%s/%s/lifetime=%d", cs.Policy, cs.SecMod, cs.LifetimeMs)
 	return "ok", "", class, map[string]any{"lifetime_ms": cs.LifetimeMs, "ok_requests": okCount, "failures": fails, "channel_errors": chanErrs,
-		"server_receive_errors": srvErrs, "timeline": sched, "events": evs, "tr": c.tr, "scenario": "renewrun", "t0": t0.UnixNano()}
+		"server_receive_errors": srvErrs, "long_polls_ok": longOK, "renewals_delayed": atomic.LoadInt64(&renewWindows), "timeline": sched, "events": evs, "tr": c.tr, "scenario": "renewrun", "t0": t0.UnixNano()}
 }
